@@ -47,6 +47,7 @@ import IrVerif.Lemmas.TraversalRefine
 import IrVerif.Lemmas.TraversalTree
 import IrVerif.Lemmas.TraversalMeth
 import IrVerif.Lemmas.TraversalUntouched
+import IrVerif.Lemmas.TraversalStatic
 namespace IrVerif.LinkedSet
 
 /-! ### representation invariant -/
@@ -1086,6 +1087,87 @@ theorem C11_trav_never_twice (X : List Nat) (d : Dir) (fuel : Nat) (es : List TE
     rw [he] at key
     simpa [TWorld.fut, tStackSpec, yieldsOf, untouched] using key
 
+/-! ### the static tree-shape predicate implies the dynamic one (wave 7)
+
+`RWorld.treeShape w.toR home g0` is the static predicate of the coarse model evaluated on the view
+`w.toR` of a world with editable attributes: static and current nesting acyclic (forward), no graph
+under two of ALL recorded attribute positions - `TWorld.attrs` is an association list read by first
+match, an attribute edit prepends the new dict and leaves the old one behind as a stale entry, and
+`w.toR` keeps them all -, the root under none, every member in its home graph.  It counts at least the
+references `TWorld.treeShape` counts, so it implies it, for either direction, whatever stale entries
+there are.  The converse needs the world to have NO stale entries (`TWorld.noStale`: every node recorded
+once, so that every recorded attribute entry is a live entry of the node's current dict) and every
+recorded dict that names a subgraph to belong to a present member on which the `recursive` predicate
+holds (`TWorld.allHung`); then the two predicates are equal. -/
+
+/-- **C11_treeShape_static_dynamic**: the static tree-shape predicate on `w.toR` implies the dynamic
+one on `w`, in either direction (no hypothesis on stale entries: they only make the static predicate
+stronger); and on a homed world without stale entries whose subgraph-naming dicts are hung the two are
+equal. -/
+theorem C11_treeShape_static_dynamic {w : TWorld} (hw : TWorldWF w) (home : Nat → Nat) (d : Dir) (g0 : Nat) :
+    (w.toR.treeShape home g0 = true → w.treeShape d g0 = true) ∧
+    (w.noStale = true → w.allHung = true → w.toR.homedOk home = true →
+      w.toR.treeShape home g0 = w.treeShape d g0) :=
+  ⟨treeShape_static_dynamic hw home d g0, treeShape_static_eq hw home d g0⟩
+
+/-- **C11_noStale_current**: what `noStale` says: the dict recorded for a node is the node's current
+dict, hence every recorded attribute entry is a live entry of it; and recording a dict for node `v`
+(what an attribute edit does) keeps the world free of stale entries exactly when `v` was not recorded
+before. -/
+theorem C11_noStale_current {w : TWorld} (hns : w.noStale = true) :
+    (∀ p ∈ w.attrs, w.dictOf p.1 = p.2) ∧
+    (∀ p ∈ w.attrs, ∀ e ∈ p.2.live, e ∈ (w.dictOf p.1).live) ∧
+    (∀ v dct, (w.setDict v dct).noStale = !(w.attrs.map (·.1)).contains v) := by
+  refine ⟨fun p hp => noStale_dictOf hns hp, fun p hp e he => by rw [noStale_dictOf hns hp]; exact he, ?_⟩
+  intro v dct
+  have hk : (w.attrs.map (·.1)).Nodup := by simpa [TWorld.noStale] using hns
+  by_cases hv : v ∈ w.attrs.map (·.1)
+  · simp [TWorld.noStale, TWorld.setDict, hv]
+  · simp [TWorld.noStale, TWorld.setDict, hv, hk]
+
+/-- **C11_trav_nodup_static**: `C11_trav_nodup` from the static predicate. -/
+theorem C11_trav_nodup_static {w : TWorld} {d : Dir} (hw : TWorldWF w) (home : Nat → Nat) (g0 : Nat)
+    (ht : w.toR.treeShape home g0 = true) :
+    ∃ outs n, (∀ f, n ≤ f → tDrain w d f (tStart g0) = (outs, .stop)) ∧ (yieldsOf outs).Nodup ∧
+      ∀ v, v ∈ yieldsOf outs ↔ ∃ g, (g = g0 ∨ Nested (w.kids d) g0 g) ∧ v ∈ toList (w.setOf g) :=
+  C11_trav_nodup hw g0 (treeShape_static_dynamic hw home d g0 ht)
+
+/-- **C11_trav_static_admissible**: along a history of `next()` calls and edits of node sequences (no
+attribute edits) from a homed world whose static nesting is acyclic, in which every edit addresses an
+existing graph and names only nodes whose home graph it is (`tAdmS`, decidable), no graph is nested in
+itself in any world passed through: the per-world acyclicity hypothesis of `C11_trav_untouched_once` /
+`C11_trav_never_twice` (`tAdm`) follows from the static predicate on the INITIAL world. -/
+theorem C11_trav_static_admissible (X : List Nat) (home : Nat → Nat) (d : Dir) (fuel : Nat) (es : List TEv)
+    (w : TWorld) (st : List TFrame) (hw : TWorldWF w) (hho : w.toR.homedOk home = true)
+    (has : w.toR.acyclicStatic .fwd home = true) (adm : tAdmS X home d fuel w st es = true) :
+    tAdm X d fuel w st es = true :=
+  tAdm_of_static X home _ d fuel es w st (staticInv_of_ok hw hho has) adm
+
+/-- **C11_trav_untouched_once_static**: `C11_trav_untouched_once` with the acyclicity of the worlds passed
+through derived from the static predicate on the initial world. -/
+theorem C11_trav_untouched_once_static (X : List Nat) (home : Nat → Nat) (d : Dir) (fuel : Nat) (es : List TEv)
+    (w : TWorld) (st : List TFrame) (hw : TWorldWF w) (ok : TStackOK w st) (hs : ∀ fr ∈ st, fr.synced w = true)
+    (hho : w.toR.homedOk home = true) (has : w.toR.acyclicStatic .fwd home = true)
+    (adm : tAdmS X home d fuel w st es = true) :
+    untouched X ((tRunY d fuel w st es).2.2 ++ (tRunY d fuel w st es).1.fut d (tRunY d fuel w st es).2.1) =
+      untouched X (w.fut d st) :=
+  C11_trav_untouched_once X d fuel es w st hw ok hs (C11_trav_static_admissible X home d fuel es w st hw hho has adm)
+
+/-- **C11_trav_never_twice_static**: `C11_trav_never_twice` from the static tree-shape predicate on the
+initial world alone: tree shape of the initial nest and acyclicity of every world passed through both
+follow from it. -/
+theorem C11_trav_never_twice_static (X : List Nat) (home : Nat → Nat) (d : Dir) (fuel : Nat) (es : List TEv)
+    (w : TWorld) (g0 : Nat) (hw : TWorldWF w) (ht : w.toR.treeShape home g0 = true)
+    (adm : tAdmS X home d fuel w (tStart g0) es = true) :
+    (untouched X (tRunY d fuel w (tStart g0) es).2.2).Nodup ∧
+    ((tRunY d fuel w (tStart g0) es).2.1 = [] →
+      untouched X (tRunY d fuel w (tStart g0) es).2.2 =
+        untouched X (preord (w.nodesD d) (w.subD d) (w.sets.length + 2) g0)) := by
+  have hst := ht
+  simp only [RWorld.treeShape, Bool.and_eq_true] at hst
+  exact C11_trav_never_twice X d fuel es w g0 hw (treeShape_static_dynamic hw home d g0 ht)
+    (C11_trav_static_admissible X home d fuel es w (tStart g0) hw hst.2 hst.1.1.1 adm)
+
 /-! ### non-vacuity of the hypotheses, and the corner the spec fixes -/
 
 -- `WF` is inhabited by every reachable state (C11_rep_history); concretely, with a tombstone:
@@ -1275,5 +1357,15 @@ example :
     AMeth.prims PyDict.empty (.update [(3, some .other), (4, none), (5, some .other)]) = ([.set 3 .other], false) ∧
     AMeth.prims PyDict.empty (.pop 3 true) = ([], true) ∧ AMeth.prims PyDict.empty (.pop 3 false) = ([], false) ∧
     AMeth.prims PyDict.empty (.setdefault 3 none) = ([], false) := by decide
+
+-- wave 7: the static predicate on the view of the example world, `noStale` / `allHung`, and a stale entry:
+-- after replacing the attribute of node 1 the old dict stays recorded, the static predicate counts graph 1 twice
+example : exT.toR.treeShape exHome 0 = true ∧ exT.noStale = true ∧ exT.allHung = true ∧
+    (exT.setAttr 1 0 (.graph 1)).noStale = false ∧ (exT.setAttr 1 0 (.graph 1)).toR.treeShape exHome 0 = false ∧
+    (exT.setAttr 1 0 (.graph 1)).treeShape .fwd 0 = true := by decide
+
+-- hypotheses of C11_trav_never_twice_static on the history of the C11_trav_never_twice example
+example : tAdmS [1, 11, 12] exHome .fwd 60 exT (tStart 0)
+      [.next, .edit 0 (.append 1), .next, .next, .next, .next, .next, .next, .next] = true := by decide
 
 end IrVerif.LinkedSet
